@@ -9,7 +9,7 @@ def run(R, ctx):
                                "Pipelines up to 5 commands per write with CR/LF/NUL inside keys, values, channel names and command names; "
                                "unknown commands; `*0`; values that are not commands (no reply expected). "
                                "Parallel sessions: 4-10 connections, each owning its keys, receive pipelines of large array replies at the same "
-                               "moment (P steps); every client must get exactly its own replies.", parallel=6)
+                               "moment (PAR steps); every client must get exactly its own replies.", parallel=6)
 
 
 def replay(R, payload):
